@@ -14,6 +14,7 @@
 package main
 
 import (
+	"crypto/sha256"
 	"encoding/json"
 	"flag"
 	"fmt"
@@ -21,6 +22,7 @@ import (
 	"go/constant"
 	"go/parser"
 	"go/token"
+	"math/big"
 	"os"
 	"path/filepath"
 	"strconv"
@@ -94,11 +96,11 @@ func str(e ast.Expr) (string, bool) {
 func intOf(e ast.Expr) (int64, bool) {
 	switch x := e.(type) {
 	case *ast.BasicLit:
-		if x.Kind != token.INT {
+		if x.Kind != token.INT && x.Kind != token.CHAR {
 			return 0, false
 		}
-		v := constant.MakeFromLiteral(x.Value, token.INT, 0)
-		n, ok := constant.Int64Val(v)
+		v := constant.MakeFromLiteral(x.Value, x.Kind, 0)
+		n, ok := constant.Int64Val(constant.ToInt(v))
 		return n, ok
 	case *ast.UnaryExpr:
 		if n, ok := intOf(x.X); ok {
@@ -195,6 +197,21 @@ func singleReturnInt(b *ast.BlockStmt) (int64, bool) {
 	return intOf(rs.Results[0])
 }
 
+func containsAliasIf(b *ast.BlockStmt) bool {
+	found := false
+	ast.Inspect(b, func(m ast.Node) bool {
+		if is, ok := m.(*ast.IfStmt); ok {
+			if _, ok := eqDisjunction(is.Cond, "current"); ok {
+				if _, ok := singleAssign(is.Body, "current"); ok {
+					found = true
+				}
+			}
+		}
+		return !found
+	})
+	return found
+}
+
 // ---------------------------------------------------------------- Maven
 func maven(repo string, t *tables) {
 	f := parse(repo, "version-maven.go")
@@ -239,8 +256,9 @@ func maven(repo string, t *tables) {
 					return false
 				}
 			}
-			// `if transition != len(rawTokens[i]) { ... }`
-			if be, ok := is.Cond.(*ast.BinaryExpr); ok && be.Op == token.NEQ && exprString(be.X) == "transition" {
+			// a guard around further rewrites, e.g. `if transition != len(rawTokens[i]) { ... }`: the rewrites inside are
+			// recorded as conditional (the model reads the condition as "directly followed by a digit")
+			if !guarded && containsAliasIf(is.Body) {
 				walk(is.Body, true)
 				return false
 			}
@@ -391,9 +409,16 @@ func debian(repo string, t *tables) {
 					got++
 				}
 				ast.Inspect(is.Cond, func(m ast.Node) bool {
-					if be, ok := m.(*ast.BinaryExpr); ok && (be.Op == token.LSS || be.Op == token.GTR) && exprString(be.X) == "c" {
+					if be, ok := m.(*ast.BinaryExpr); ok && exprString(be.X) == "c" {
 						if n, ok := intOf(be.Y); ok {
-							t.DebianLetterBounds = append(t.DebianLetterBounds, n)
+							switch be.Op { // normalised to strict comparisons: c <= k is c < k+1, c >= k is c > k-1
+							case token.LSS, token.GTR:
+								t.DebianLetterBounds = append(t.DebianLetterBounds, n)
+							case token.LEQ:
+								t.DebianLetterBounds = append(t.DebianLetterBounds, n+1)
+							case token.GEQ:
+								t.DebianLetterBounds = append(t.DebianLetterBounds, n-1)
+							}
 						}
 					}
 					return true
@@ -544,6 +569,11 @@ func main() {
 	w("Go unicode.ToLower (toolchain table) on U+0080..U+052F, pairs that differ from the identity", "gen_unicode_lower_pairs", "list (N * N)", "["+strings.Join(lp, "; ")+"]%N")
 	w("code points at or above this limit are NOT case-mapped by the model", "gen_unicode_lower_limit", "N", fmt.Sprintf("%d%%N", lowerLimit))
 
+	// identity of this table set: lets the check verify that a compiled Generated_Tables.vo really comes from this text
+	// (file times are not reliable: other processes restore the committed copy)
+	sum := sha256.Sum256([]byte(sb.String()))
+	id := new(big.Int).SetBytes(sum[:7])
+	fmt.Fprintf(&sb, "(* identity of the tables above (first 56 bits of their SHA-256) *)\nDefinition gen_tables_id : N := %s%%N.\n", id.String())
 	if *out != "" {
 		old, _ := os.ReadFile(*out)
 		if string(old) != sb.String() { // keep the mtime when nothing changed (no needless rebuild)
